@@ -90,7 +90,7 @@ func (p *c20POnly) Count() int   { return p.A + 1 }
 
 type c20Lang string
 
-const c20NFixed = 14
+const c20NFixed = 15
 
 func c20Fixed(t int) interface{} {
 	mv := c20MV{A: 11, Lbl: "mv", hid: "secret"}
@@ -123,13 +123,16 @@ func c20Fixed(t int) interface{} {
 	case -13:
 		// keyed by a named string type
 		return map[c20Lang]string{"name": "named-key", "A": "a", "Lbl": "l"}
+	case -15:
+		// keys whose spelling inside a template string needs escapes
+		return map[string]interface{}{"it's": "apostrophe", "say \"hi\"": "quotes", "C:\\temp": "backslash", "a\tb": "tab", "two words": "space", "name": "plain"}
 	case -14:
 		return map[c20Lang]interface{}{"name": "named-key-2", "sub": map[string]interface{}{"z": 7}, "inner": map[c20Lang]string{"name": "deeper"}}
 	}
 	panic("fixed type")
 }
 
-var c20FixedAttrs = []string{"City", "Zip", "Name", "A", "B", "C", "Lbl", "Get", "PGet", "Twice", "hid", "name", "sub", "sub.z", "inner.name", "st.B", "st.A", "st.Get", "nope", "c20MV", "c20Emb", "Only", "Count"}
+var c20FixedAttrs = []string{"City", "Zip", "Name", "A", "B", "C", "Lbl", "Get", "PGet", "Twice", "hid", "name", "sub", "sub.z", "inner.name", "st.B", "st.A", "st.Get", "nope", "c20MV", "c20Emb", "Only", "Count", "it's", "say \"hi\"", "C:\\temp", "a\tb", "two words"}
 
 // ---- generated types ---------------------------------------------------------------------------
 
@@ -276,8 +279,12 @@ func c20Query(v interface{}, attr string, idx bool) Res {
 	if idx {
 		parts := strings.Split(attr, ".")
 		expr = "x"
-		for _, p := range parts {
-			expr += "['" + p + "']"
+		if strings.ContainsAny(attr, "'\"\\\t\n ") {
+			parts = []string{attr} // a key that needs quoting in the template is one key
+		}
+		for i, p := range parts {
+			// both quote styles, with the escapes each needs
+			expr += "[" + quoteTwig(p, (len(attr)+i)%2) + "]"
 		}
 	}
 	return guardT(20*time.Second, func() (string, error) {
@@ -331,6 +338,9 @@ func checkC20(c C20Case) error {
 				return fmt.Errorf("step %d: %v", si, err)
 			}
 			continue
+		}
+		if !st.Idx && strings.ContainsAny(st.Attr, "'\"\\\t\n ") {
+			continue // such a name can only be written in the index form
 		}
 		v := c20Value(c, st.T, st.Ptr)
 		isMap := reflect.ValueOf(v).Kind() == reflect.Map
@@ -506,7 +516,7 @@ func TestC20Attr(t *testing.T) {
 // TestC20Family: every (fixed value, attribute, value/pointer, form) combination, before and
 // after flooding the cache past its capacity twice.
 func TestC20Family(t *testing.T) {
-	r := NewRec(t, "C20", "exhaustive: the 14 fixed values (method family incl. a type with pointer-receiver methods only, embedded pointers, maps: untyped, typed, interface-keyed, keyed by a named string type) x 23 attribute names x {value, pointer} x {x.name, x['name']}, asked three times with two floods of 1200 fresh (type, name) pairs in between; non-trivial = all")
+	r := NewRec(t, "C20", "exhaustive: the 15 fixed values (method family incl. a type with pointer-receiver methods only, embedded pointers, maps: untyped, typed, interface-keyed, keyed by a named string type, string keys that need escapes when written in a template) x 23 attribute names x {value, pointer} x {x.name, x['name']}, asked three times with two floods of 1200 fresh (type, name) pairs in between; non-trivial = all")
 	defer r.Flush()
 	r.SetExhaustive()
 	var steps []C20Step
